@@ -18,7 +18,20 @@ SPEC = dict(
                 "implementation oracle only); the bare accessors (no wrappers) are in the executable model and under correspondence but "
                 "their own Sample/RowNamespaceData producers have no theorem."),
     rule=("blocks: the empty block, widths 1,2,4 with every amount of trailing padding, widths 8,16 (quick) / 8..64 (thorough) with sampled "
-          "padding, 1-5 namespaces in runs; each block is put with PutODSQ4 / PutODS and read as: recent-cache (rsmt2d), reopened ODS+Q4, "
+          "padding, 1-5 namespaces in runs; plus, in every tier, two 32-wide squares (thorough: also two 64-wide) with a designed layout: "
+          "'long' = a namespace spanning 19..k-3 rows, '16+17' = one namespace spanning exactly 16 rows followed by one spanning exactly "
+          "17 rows (eds.NamespaceData fans out over the rows of a namespace; histograms ns_rows_in_block / nd_rows show the 16 / 17 / >17 "
+          "coverage). On the wide squares namespace data is requested for every namespace worth asking for (present, neighbours, extremes, "
+          "reserved) on every representation and layer incl. store.Getter.GetNamespaceData and eds.NamespaceData over the bare accessors, "
+          "row namespace data at the first / 16th / 17th / 18th / last row of each namespace, and 16 (thorough, 32-wide: 160) sampled other reads; "
+          "every answer is compared row by row with the square that was put and verified against the roots (L3). Model cases of the wide "
+          "squares in the quick tier: the file contents, every history on the ODS-only and Q4-pruned representations (every layer), one "
+          "history on the in-memory and one on the ODS+Q4 representation; the remaining wide-square histories of the quick tier "
+          "(in-memory cached/getter/plain, ODS+Q4 store/cached/plain, shared-store) are L3 ONLY (histogram l3_only_history) because the "
+          "model evaluation of the parity quadrants of a 32-wide square costs 3-5 s per case; the thorough tier emits all of them for the 32-wide squares and applies the same "
+          "restriction (and the 16-read budget) to the 64-wide ones, where one in-memory case costs about a minute. "
+          "eds.NamespaceData over a bare accessor (no wrappers) is L3 only in every tier (the model has PNd on the wrapped accessor only). "
+          "Each block is put with PutODSQ4 / PutODS and read as: recent-cache (rsmt2d), reopened ODS+Q4, "
           "Q4 pruned (RemoveQ4 or file deleted), ODS-only, through Store, CachedStore (second cache), store.Getter and the bare accessor, "
           "plus a shared store whose recent cache holds one block (previous block evicted to files). Requests: every sample coordinate, "
           "axis, row x namespace (present, neighbours, extremes, reserved, tail-padding and parity namespaces), namespace data, every "
